@@ -78,7 +78,17 @@ def run(ctx):
     tries = 0
     while len(hist_groups) < ctx.n(200, 1500) and tries < 20000:
         tries += 1
-        if rng.random() < 0.3:
+        r0 = rng.random()
+        if r0 < 0.03:
+            # an interrupt whose upstream-fed input has a signature default (known finding F-f)
+            g = {"nodes": [
+                {"name": "write", "kind": "func", "inputs": ["x0"], "outputs": ["draft"], "emit": [], "wait_for": [], "defaults": {}, "fn": ["sym", "write"]},
+                {"name": "review", "kind": "interrupt", "inputs": ["draft"], "outputs": ["verdict"], "emit": [], "wait_for": [], "defaults": {"draft": 61}, "fn": ["const", None]},
+                {"name": "publish", "kind": "func", "inputs": ["verdict"], "outputs": ["final"], "emit": [], "wait_for": [], "defaults": {}, "fn": ["sym", "publish"]}],
+                "bound": {}, "entrypoints": None, "selected": None, "ext": ["x0"], "int_valued": ["x0"]}
+            rng.shuffle(g["nodes"])
+            ints = ["review"]
+        elif r0 < 0.3:
             g, ints = sibling_interrupts(rng)
         else:
             base = gen.gen_dag(rng, max_nodes=6, edge_defaults=0.0, none_values=False)
